@@ -1,4 +1,4 @@
-//! Worker binary: `vrun <Cxx> --tier T --seed S --shard i/n --budget-s B --out FILE [--inflight FILE] [--replay FILE]`
+//! Worker binary: `vrun <Cxx> --tier T --seed S --shard i/n --budget-s B --out FILE [--inflight FILE] [--replay FILE] [--mode M | --miri]`
 
 use serde_json::Value;
 use vharness::monitors;
@@ -26,6 +26,7 @@ fn main() {
     let mut inflight: Option<String> = None;
     let mut replay: Option<String> = None;
     let mut stack_mb = 64usize;
+    let mut mode = String::new();
     let mut i = 2;
     while i < args.len() {
         let a = args[i].as_str();
@@ -43,6 +44,14 @@ fn main() {
             "--inflight" => inflight = Some(v),
             "--replay" => replay = Some(v),
             "--stack-mb" => stack_mb = v.parse().expect("stack"),
+            "--mode" => mode = v,
+            // flag without a value: the tiny workload for `cargo miri run` (an argv flag, not an
+            // environment variable, because Miri isolates the environment by default)
+            "--miri" => {
+                mode = "miri".to_string();
+                i += 1;
+                continue;
+            }
             _ => {
                 eprintln!("unknown argument {a}");
                 std::process::exit(2);
@@ -61,6 +70,7 @@ fn main() {
         .stack_size(stack_mb * 1024 * 1024)
         .spawn(move || {
             let mut ctx = Ctx::new(&prop, tier, seed, shard, nshards, budget, inflight.as_deref());
+            ctx.mode = mode;
             if let Some(path) = replay {
                 ctx.replay_mode = true;
                 let text = std::fs::read_to_string(&path).expect("read replay");
@@ -69,6 +79,20 @@ fn main() {
                 replay_fn(&mut ctx, &case);
             } else {
                 run(&mut ctx);
+            }
+            if ctx.mode == "miri" {
+                // `-Zmiri-many-seeds` runs this program once per seed with the same arguments:
+                // report on stdout/stderr and through the exit code, not only through `--out`.
+                let r = ctx.summary_json();
+                println!("VERIF-MIRI-SUMMARY {}", serde_json::to_string(&r).unwrap());
+                let n = ctx.violation_count();
+                // `--out` is not written in this mode (interpreted file I/O and a second
+                // serialization cost seconds per seed); the orchestrator reads stdout.
+                if n > 0 {
+                    eprintln!("VERIF-VIOLATION {n} violation signature(s) observed by the monitor under Miri");
+                    std::process::exit(1);
+                }
+                return;
             }
             ctx.finish(&out);
         })
